@@ -39,7 +39,12 @@ CONSTANTS
     GCAll,           \* TRUE: GC takes every active entry (ttl < 0 in the harness); FALSE: any subset
     MaxRetries,      \* maxLoadRetries of the code (3)
     FIX_TRYREMOVE_LOADING, FIX_ADD_CLOSED, FIX_TRYREMOVE_ERR,
-    Loose            \* FALSE in the design; TRUE only for trace validation (see AfterLoadE)
+    Loose,           \* FALSE in the design; TRUE only for trace validation (see AfterLoadE)
+    CloseDeadline,   \* TRUE: the environment may let Close's deadline (closeTimeout) expire while Close
+                     \* waits for a load or for another closer
+    BOUND_LOADS      \* deviation, FALSE = the code: Close waits for in-flight loads WITHOUT bound
+                     \* (context.Background()); only the wait for another closer is bounded by the
+                     \* deadline. TRUE = Close gives up on a loading entry at the deadline, too.
 
 VARIABLES
     ops,       \* the configuration: sequence of [kind, id, arg]; fixed after Init
@@ -64,10 +69,11 @@ Ops     == 1..Len(ops)
 
 NewEntry(id, st, val, ld) ==
     [id |-> id, st |-> st, val |-> val, ld |-> ld, err |-> FALSE, ab |-> FALSE,
-     gen |-> 0, cg |-> {}, cs |-> FALSE, cd |-> FALSE]
+     gen |-> 0, cg |-> {}, cs |-> FALSE, cd |-> FALSE, gu |-> FALSE]
     \* st: loading/active/closing/closed; val: instance index (0 = nil); ld: load channel closed;
     \* err/ab: loadErr set / loadAborted; gen: number of close channels made (current one = gen,
-    \* 0 = nil channel); cg: closed close-channel generations; cs: cancel func set; cd: load ctx cancelled
+    \* 0 = nil channel); cg: closed close-channel generations; cs: cancel func set; cd: load ctx cancelled;
+    \* gu: cache Close gave up on this entry at its deadline while another closer held it
 NewInst(id, st, how) == [id |-> id, st |-> st, cc |-> 0, how |-> how]
     \* st: loading / live / closing / closed / gone (closed and deleted from the map) / failed
 NoLoc == [e |-> 0, g |-> 0, i |-> 0, rt |-> 0, ld |-> FALSE, lo |-> "", ab |-> FALSE,
@@ -293,9 +299,11 @@ RS1(o) == RS1D(o, RS1Dec(o))
 \* waitLoad of removeCtx (Close waits with a background context)
 RWL(o) ==
     /\ pc[o] = "RWL"
-    /\ \/ /\ E(o).ld /\ ChanOK(o)
+    /\ \/ /\ E(o).ld /\ (ChanOK(o) \/ (Kind(o) = "Close" /\ ~BOUND_LOADS))
           /\ IF E(o).err THEN Next0(o, loc[o], "ErrLoad") ELSE Goto(o, "RSC") /\ UNCHANGED loc
        \/ /\ canc[o] /\ Kind(o) # "Close" /\ Ret(o, loc[o], "ErrCtx", 0)
+       \* (deviation) Close's deadline also bounds the wait for a load: the entry is skipped
+       \/ /\ canc[o] /\ Kind(o) = "Close" /\ BOUND_LOADS /\ Next0(o, loc[o], "ok")
     /\ UNCHANGED <<ops, pre, closed, data, ent, inst, canc, panicked, snap>>
 
 \* the e.mx section of setClosing(wait = TRUE): loop while closing, else take the entry
@@ -313,11 +321,14 @@ RSC(o) ==
     /\ UNCHANGED <<ops, pre, closed, data, inst, canc, panicked, snap>>
 
 \* blocked on the close channel of another closer; after the wake-up the loop re-checks under e.mx
-\* (Close's closing context is bounded by closeTimeout; assumed not to expire)
+\* Close's closing context is bounded by closeTimeout: when the deadline has expired (canc of the
+\* Close operation) Close logs the error, gives up on this entry and goes on with the next one
 RSCw(o) ==
     /\ pc[o] = "RSCw"
     /\ \/ loc[o].g \in E(o).cg /\ ChanOK(o) /\ SetClosingWait(o)
        \/ canc[o] /\ Kind(o) # "Close" /\ Ret(o, loc[o], "ErrCtx", 0) /\ UNCHANGED ent
+       \/ /\ canc[o] /\ Kind(o) = "Close" /\ Next0(o, loc[o], "ok")
+          /\ ent' = [ent EXCEPT ![loc[o].e].gu = TRUE]
     /\ UNCHANGED <<ops, pre, closed, data, inst, canc, panicked, snap>>
 
 \* Object.Close is entered
@@ -433,8 +444,11 @@ Blocked(o) ==
 \* "any time" is represented by cancelling at the latest when such a point has been reached.
 Observes(o) == pc[o] \in {"GWCw", "GWL", "PWL", "RWL", "RSCw", "G3r", "G4b"}
 
+\* For cache Close the "context" is its own deadline (context.WithTimeout(closeTimeout), made after
+\* the c.mu section): the environment lets it expire while Close waits for a load or another closer.
 Cancel(o) ==
-    /\ CancelMode # "none" /\ Kind(o) \in CtxKinds /\ ~canc[o] /\ Observes(o)
+    /\ CancelMode # "none" /\ ~canc[o] /\ Observes(o)
+    /\ Kind(o) \in CtxKinds \/ (CloseDeadline /\ Kind(o) = "Close" /\ pc[o] \in {"RWL", "RSCw"})
     /\ CancelMode = "blocked" => Blocked(o)
     /\ canc' = [canc EXCEPT ![o] = TRUE]
     /\ UNCHANGED <<ops, pre, closed, data, ent, inst, pc, loc, panicked, snap>>
@@ -545,8 +559,12 @@ NoDoubleClose == \A i \in 1..Len(inst) : inst[i].cc <= 1
 
 \* once Close has returned nothing is open (an operation that overlaps Close may still be
 \* running, but it cannot hold or create an open instance)
+\* Exception the code makes on purpose (comment in Close): an entry another closer holds when the
+\* deadline expires is given up - what becomes of its instance is then up to that closer.
+GivenUp(i) == \E e \in 1..Len(ent) : ent[e].val = i /\ ent[e].gu
 NoneOpenAfterShutdown ==
-    \A o \in Ops : (Kind(o) = "Close" /\ pc[o] = "done" /\ loc[o].res = "ok") => \A i \in 1..Len(inst) : ~Open(i)
+    \A o \in Ops : (Kind(o) = "Close" /\ pc[o] = "done" /\ loc[o].res = "ok")
+                    => \A i \in 1..Len(inst) : ~Open(i) \/ GivenUp(i)
 
 \* a lookup that started after a removal completed never returns the removed instance
 NoStaleAfterRemove == \A o \in Ops : (Kind(o) \in {"Get", "Pick"} /\ pc[o] = "done" /\ loc[o].res = "ok")
@@ -566,7 +584,7 @@ NoPanic == ~panicked
 \* step without anybody's context being cancelled (loads / closes / try-closes always return)
 WaitBlocked(o) == /\ \/ pc[o] \in {"GWCw", "RSCw"} /\ loc[o].g \notin E(o).cg
                      \/ pc[o] \in {"GWL", "PWL", "RWL"} /\ ~E(o).ld
-                  /\ ~(canc[o] /\ Kind(o) # "Close")
+                  /\ ~(canc[o] /\ (Kind(o) # "Close" \/ pc[o] = "RSCw" \/ BOUND_LOADS))
 NoStuck == AllFinished \/ \E o \in Ops : pc[o] \notin {"done", "panic"} /\ ~WaitBlocked(o)
 \* the same, by definition (slow; checked in the small configuration only)
 NoStuckDef == NoStuck <=> (AllFinished \/ ENABLED Progress)
